@@ -36,6 +36,7 @@ type Report struct {
 	Extra           map[string]interface{}
 	MinNontrivial   int
 	DiedIsViolation bool
+	Classify        func(o *Outcome)
 	Start           time.Time
 	Exhaustive      bool
 	Notes           []string
@@ -82,12 +83,20 @@ func (r *Report) Finish() int {
 	counters := map[string]int{}
 	status := map[string]int{}
 	distinct := map[string]bool{}
+	distinctN := 0
 	var samples []interface{}
 	var viol []Outcome
 	knownPrinted := map[string]bool{}
 	nKnown := 0
 	for i := range r.Outcomes {
 		o := &r.Outcomes[i]
+		if r.Classify != nil && (o.Status == "died" || o.Status == "budget" || o.Status == "blocked") {
+			r.Classify(o)
+		}
+		if o.Status == "blocked" {
+			o.Detail = "(blocked) " + o.Detail
+			o.Status = "inconclusive"
+		}
 		if (o.Status == "died" || o.Status == "budget") && !r.DiedIsViolation {
 			o.Detail = "(" + o.Status + ") " + o.Detail
 			o.Status = "inconclusive"
@@ -116,8 +125,13 @@ func (r *Report) Finish() int {
 		for k, v := range o.Counters {
 			counters[k] += v
 		}
-		if o.Nontrivial && o.Hash != "" && (o.Status == "held" || o.Status == "known") {
+		if o.Nontrivial && o.Hash != "" && (o.Status == "held" || o.Status == "known") && !distinct[o.Hash] {
 			distinct[o.Hash] = true
+			if o.Sub > 1 {
+				distinctN += o.Sub
+			} else {
+				distinctN++
+			}
 		}
 		if o.Sample != nil && len(samples) < 4 && o.Status == "held" {
 			samples = append(samples, o.Sample)
@@ -166,7 +180,7 @@ func (r *Report) Finish() int {
 	}
 	cov := map[string]interface{}{
 		"evaluations":         evaluations,
-		"distinct_nontrivial": len(distinct),
+		"distinct_nontrivial": distinctN,
 		"rule":                r.Rule,
 		"samples":             samples,
 		"status_counts":       status,
@@ -197,7 +211,7 @@ func (r *Report) Finish() int {
 
 	inc := status["inconclusive"]
 	fmt.Printf("%s %s seed=%d: %d evaluations, %d distinct non-trivial, status %v, %.1fs\n",
-		r.Prop, r.Tier, r.Seed, evaluations, len(distinct), status, time.Since(r.Start).Seconds())
+		r.Prop, r.Tier, r.Seed, evaluations, distinctN, status, time.Since(r.Start).Seconds())
 	keys := make([]string, 0, len(counters))
 	for k := range counters {
 		keys = append(keys, k)
@@ -219,8 +233,8 @@ func (r *Report) Finish() int {
 		}
 		return 2
 	}
-	if len(distinct) < r.MinNontrivial {
-		fmt.Printf("INCONCLUSIVE property=%s: only %d distinct non-trivial cases observed (need %d): the monitor saw too little\n", r.Prop, len(distinct), r.MinNontrivial)
+	if distinctN < r.MinNontrivial {
+		fmt.Printf("INCONCLUSIVE property=%s: only %d distinct non-trivial cases observed (need %d): the monitor saw too little\n", r.Prop, distinctN, r.MinNontrivial)
 		return 2
 	}
 	return 0
